@@ -15,6 +15,7 @@ def run(ck, progs):
     ck.rule("C06.5", "the flag word is touched only by the functions of the protocol, each with its permitted kind of access")
     ck.rule("C06.6", "the matched remote event is marked ANTI before the rollback that undoes it")
     ck.rule("C06.7", "a remotely cancelled message is released only through the at-GVT list after its non-blocking send")
+    ck.rule("C06.9", "the flag word of a freshly allocated (recycled) message is written on every path before the message is published")
     ck.rule("C06.8", "early anti-message list: linked completely before it is published, unlinked before it is released, initially empty")
     for cfg, P in progs.items():
         rules_msg.check_rmw_protocol(ck, P, "C06.1")
@@ -24,3 +25,4 @@ def run(ck, progs):
         rules_msg.check_anti_before_rollback(ck, P, "C06.6")
         rules_msg.check_deferred_free(ck, P, "C06.7")
         rules_msg.check_early_list(ck, P, "C06.8")
+        rules_msg.check_flags_initialised(ck, P, "C06.9")
